@@ -25,6 +25,9 @@ def make_cases(tier, rng):
                     for settle in ([False, True] if pt in ("before_output", "mid_line", "after_line") else [False]):
                         cases.append({"name": "cr%d" % len(cases), "point": pt, "proto": pr, "how": how, "jitter_ms": rng.randint(0, 90), "settle": settle,
                                       "line_variant": len(cases)})
+                        if pr == "grpc" and pt in ("after_line", "idle", "in_unary", "broker_after_id") and how == hows[0]:
+                            # the same with a host that asked for a blocking dial of its main connection
+                            cases.append(dict(cases[-1], name="cr%d" % len(cases), block=True))
     return cases
 
 
